@@ -216,6 +216,22 @@ class TxWire(Family):
                 raise Viol('mutable tx: serialize() after restoring the fields', enc[:120], tx.serialize()[:120])
         cls = CMutableTransaction if case['mut'] else CTransaction
         k = len([p for p in s if p != 'witobj'])
+        if k <= 1:
+            # the encoding may be handed over in any bytes-like container
+            Trunc, Extra = _errors()
+            for wrap in (bytearray, memoryview):
+                if C.model_of_tx(cls.deserialize(wrap(enc))) != want:
+                    raise Viol('%s: deserialize(%s) differs' % (what, wrap.__name__), None, None)
+                try:
+                    cls.deserialize(wrap(enc[:-1]))
+                    raise Viol('%s: truncated %s accepted' % (what, wrap.__name__), 'SerializationTruncationError', None)
+                except Trunc:
+                    pass
+                try:
+                    cls.deserialize(wrap(enc + b'\x00'))
+                    raise Viol('%s: extended %s accepted' % (what, wrap.__name__), 'DeserializationExtraDataError', None)
+                except Extra:
+                    pass
         npre = check_truncations(cls, enc, bnds, what, all_prefixes=(k <= 1))
         tails = TAILS if k else TAILS + [bytes([b]) for b in range(256)]
         check_extensions(cls, enc, C.model_of_tx, want, tails, what)
@@ -318,6 +334,9 @@ class BlockWire(Family):
         stripped = obj.serialize(dict(include_witness=False))
         if stripped != W.encode_block(b, witness=False):
             raise Viol('block serialize(include_witness=False) differs from the stripped format', None, None)
+        # the optional parameter of one call does not stick: full form again, on this and on a fresh block object
+        if obj.serialize() != enc or C.lib_block(b).serialize() != enc or obj.serialize(dict(include_witness=True)) != enc:
+            raise Viol('block serialize() after a stripped serialisation differs from the wire format', enc[:300], obj.serialize()[:300])
         back = CBlock.deserialize(enc)
 
         def to_model(x):
